@@ -142,8 +142,12 @@ def finish(prop, tier, seed, packs, results, t0, a):
                                "kind": "bounded", "line": None, "time": b.get("wall_s", 0), "nhyps": 0})
     lines = []
     replay_dir = os.path.join(ROOT, "replays", prop)
+    by_k = {}
     for (o, k) in known_hit:
-        lines.append("KNOWN-FINDING: property=%s %s [%s]" % (prop, k["what"], o["name"]))
+        by_k.setdefault(k["what"], []).append(o["name"])
+    for what, names in by_k.items():
+        uniq = sorted(set(names))
+        lines.append("KNOWN-FINDING: property=%s %s [%d failing obligation(s), e.g. %s]" % (prop, what, len(uniq), uniq[0]))
     from engine import replay as rp
     seen_v = set()
     for o in violations:
